@@ -410,3 +410,14 @@ Example ex_deny_premises :
   route cfg_both (rq "GET" "/bd/api/v1/dags" "Token tok123") = Api /\ no_auth cfg_both = false /\
   carries_basic cfg_both (L "Bearer dG9rMTIz") = false /\ carries_token cfg_both (L "Bearer dG9rMTIz") = false.
 Proof. vm_compute. repeat split. Qed.
+
+(* a password containing colons: net/http cuts user:password at the FIRST colon, so the standard form of the configured pair
+   passes (complete_basic puts no condition on the password) and neither `password:junk` nor the password cut at its first
+   colon does *)
+Definition cfg_colon : cfg := {| basic := Some (L "admin", L "a:b:c"); token := None; base_path := [] |}.
+Example ex_colon_password :
+  chain cfg_colon {| method := L "GET"; path := L "/api/v1/dags"; rawpath := []; hdr := std_basic (L "admin") (L "a:b:c") |} = Api /\
+  chain cfg_colon {| method := L "GET"; path := L "/api/v1/dags"; rawpath := []; hdr := std_basic (L "admin") (L "a:b:c:junk") |} = Unauth /\
+  chain cfg_colon {| method := L "GET"; path := L "/api/v1/dags"; rawpath := []; hdr := std_basic (L "admin") (L "a") |} = Unauth /\
+  parse_basic (std_basic (L "admin") (L "a:b:c")) = Some (L "admin", L "a:b:c").
+Proof. vm_compute. repeat split. Qed.
